@@ -12,6 +12,10 @@ from core import Ctx, Violation, err_name, ints, line
 from . import zoo_common as Z
 
 torch.set_num_threads(1)
+# reference convolution kernels: with oneDNN off, torch convolves sample by sample, so that batched and single evaluation
+# are bit-identical for most of the zoo (68 of 89 models) and within 1e-6 for the rest — the tolerance then separates
+# algorithmic batch dependence from rounding with a wide margin
+torch.backends.mkldnn.enabled = False
 warnings.filterwarnings("ignore")
 
 PROP = "C18"
@@ -41,7 +45,8 @@ TRUSTED = [
 ASSUMPTIONS = [
     "group statistics are compared as exact integers (n, sum, sum (n x - S)^2) on integer-valued float64 tensors; groups of one "
     "element (std = NaN) are excluded",
-    "batch-vs-single tolerance 1e-5 relative to the output scale (1e-4 JointICNet, 1e-3 ConjGradNet with its own CG tolerance)",
+    "batch-vs-single tolerance 1e-5 relative to the output scale (float32, oneDNN disabled so that most models are bit-identical; "
+    "1e-4 for KIKINet with a normalised U-Net on k-space, 1e-3 for ConjGradNet whose CG tolerance bounds its own accuracy)",
     "evaluation mode only",
 ]
 RULE = ("integer batches (b 1..4, c, h, w small, groups dividing) for the normalisation functions; Gaussian-integer coil stacks "
